@@ -117,6 +117,32 @@ mod verif_c09 {
         kani::cover!(true);
     }
 
+    // ---- C10: each request is tallied by the tally function of its own kind, with its own sizes
+    // (whole 12-number state compared with a reference state on which that function was called;
+    //  the tally functions themselves are under contract in C10's Verus unit)
+    fn same(a: &ThreadAllocInfo, b: &ThreadAllocInfo) -> bool {
+        let mut ok = a.current_count == b.current_count && a.current_size == b.current_size && a.max_count == b.max_count && a.max_size == b.max_size;
+        for o in AllocOp::ALL { ok = ok && a.tallies.get(o).count == b.tallies.get(o).count && a.tallies.get(o).size == b.tallies.get(o).size; }
+        ok
+    }
+    #[kani::proof]
+    fn requests_tallied_by_kind() {
+        let p = AllocProfiler::new(Mock);
+        let which: u8 = kani::any(); kani::assume(which < 4);
+        let l = any_layout(); let ptr: usize = kani::any(); let new_size: usize = kani::any();
+        kani::assume(Layout::from_size_align(new_size, l.align()).is_ok());
+        script(); reset_tally();
+        let mut want = ThreadAllocInfo::new();
+        match which {
+            0 => { unsafe { p.alloc(l) }; want.tally_alloc(l.size()); }
+            1 => { unsafe { p.alloc_zeroed(l) }; want.tally_alloc(l.size()); }        // zeroed included
+            2 => { unsafe { p.realloc(ptr as *mut u8, l, new_size) }; want.tally_realloc(l.size(), new_size); }
+            _ => { unsafe { p.dealloc(ptr as *mut u8, l) }; want.tally_dealloc(l.size()); }
+        }
+        assert!(same(&tally(), &want), "[C10] a request is tallied by the tally function of its kind (balances and peaks included)");
+        kani::cover!(which == 1 && l.size() > 0); kani::cover!(which == 2 && new_size < l.size()); kani::cover!(which == 3);
+    }
+
     fn step(p: &AllocProfiler<Mock>) {
         let which: u8 = kani::any(); kani::assume(which < 4);
         let l = any_layout(); let ptr: usize = kani::any(); let new_size: usize = kani::any();
